@@ -39,6 +39,18 @@ def close(a, b, scale):
   return a.shape == b.shape and bool(np.all(np.abs(a - b) <= 2e-4 * (1.0 + scale)))
 
 
+def expected_steps(n, bs, epochs, steps, drop):
+  """Documented number of local steps of shuffle_repeat_batch (None: not pinned down here, n == 0)."""
+  if n == 0:
+    return 0
+  cands = []
+  if epochs is not None:
+    cands.append((n * epochs) // bs if drop else -((-n * epochs) // bs))
+  if steps is not None:
+    cands.append(steps)
+  return min(cands) if cands else None
+
+
 class C01(core.Property):
   ID = 'C01'
   RULE = ('multi-round histories: cohorts of 0..6 clients with sizes 0..9 (not multiples of the batch size), '
@@ -61,14 +73,22 @@ class C01(core.Property):
     self.jax, self.jnp, self.fed_avg, self.cds, self.optimizers, self.fec = jax, jnp, fed_avg, client_datasets, optimizers, fec
     self.ndev = len(jax.local_devices())
 
-    def grad_fn(params, batch, rng):
-      w = params['w']
-      x, y = batch['x'], batch['y']
-      err = x @ w - y
-      g = jnp.mean(err[:, None] * x, axis=0)
-      return {'w': g + KAPPA * jax.random.normal(rng, w.shape)}
+    def mk_grad_fn(nanpad):
+      def grad_fn(params, batch, rng):
+        w = params['w']
+        x, y = batch['x'], batch['y']
+        err = x @ w - y
+        g = jnp.mean(err[:, None] * x, axis=0)
+        if nanpad:
+          # feature normalisation: exactly 1 on every real batch (x[:, 0] != 0 there), 0/0 on the all-zero
+          # padding batch a parallel backend feeds to clients that have finished
+          s = jnp.sum(jnp.abs(x[:, 0]))
+          g = g * (s / s)
+        return {'w': g + KAPPA * jax.random.normal(rng, w.shape)}
+      return grad_fn
 
-    self.grad_fn = grad_fn
+    self.grad_fn = mk_grad_fn(False)
+    self.grad_fn_nanpad = mk_grad_fn(True)
     prop = self
 
     class RecDataset(client_datasets.ClientDataset):
@@ -139,11 +159,19 @@ class C01(core.Property):
       sopt = opt(exact)
       if i % 5 == 0:
         sopt = ['sgd', 1.0, 0.0]
+      backend = ['jit', 'jit', 'debug', 'pmap'][i % 4]
+      nanpad = backend == 'pmap' and rng.random() < 0.6
+      if nanpad:
+        for cohort in rounds:
+          for c in cohort:
+            for row in c['x']:
+              if row[0] == 0:
+                row[0] = rng.choice([-1, 1, 2])
       yield {'d': d, 'w0': [rng.choice([-1, 0, 1, 2]) for _ in range(d)], 'copt': opt(exact), 'sopt': sopt,
              'bs': rng.choice([1, 2, 3, 4, 5]), 'epochs': epochs, 'steps': steps, 'drop': rng.random() < 0.3,
              'seed': rng.randrange(1000), 'rounds': rounds, 'key_seed': rng.randrange(1000),
-             'backend': ['jit', 'jit', 'debug', 'pmap'][i % 4], 'D': rng.randrange(1, min(4, self.ndev) + 1),
-             'perm_seed': rng.randrange(1000)}
+             'backend': backend, 'D': rng.randrange(1, min(4, self.ndev) + 1),
+             'perm_seed': rng.randrange(1000), 'nanpad': nanpad}
 
   def shrink(self, case):
     rs = case['rounds']
@@ -169,7 +197,8 @@ class C01(core.Property):
     hp = self.cds.ShuffleRepeatBatchHParams(batch_size=case['bs'], num_epochs=case['epochs'],
                                             num_steps=case['steps'], drop_remainder=case['drop'],
                                             seed=case['seed'])
-    alg = self.fed_avg.federated_averaging(self.grad_fn, self.mk_opt(case['copt']), self.mk_opt(case['sopt']), hp)
+    grad_fn = self.grad_fn_nanpad if case.get('nanpad') else self.grad_fn
+    alg = self.fed_avg.federated_averaging(grad_fn, self.mk_opt(case['copt']), self.mk_opt(case['sopt']), hp)
     state = alg.init({'w': jnp.asarray(case['w0'], dtype=jnp.float32)})
     d = case['d']
     out_states, out_diag, out_logs, out_keys = [], [], [], []
@@ -179,7 +208,7 @@ class C01(core.Property):
     with self.fec.for_each_client_backend(backend):
       # the backend is chosen when the algorithm is constructed; ONE algorithm object serves the whole
       # multi-round history, as in a real experiment
-      alg_b = self.fed_avg.federated_averaging(self.grad_fn, self.mk_opt(case['copt']),
+      alg_b = self.fed_avg.federated_averaging(grad_fn, self.mk_opt(case['copt']),
                                                self.mk_opt(case['sopt']), hp)
     for ri, cohort in enumerate(case['rounds']):
       keys = jax.random.split(jax.random.PRNGKey(case['key_seed'] + ri), max(1, len(cohort)))
@@ -221,7 +250,8 @@ class C01(core.Property):
     jax, jnp = self.jax, self.jnp
     d = case['d']
     tags = [f'backend={case["backend"]}', f'copt={case["copt"][0]}', f'sopt={case["sopt"][0]}',
-            f'rounds={len(case["rounds"])}', f'epochs={case["epochs"]}', f'steps={case["steps"]}']
+            f'rounds={len(case["rounds"])}', f'epochs={case["epochs"]}', f'steps={case["steps"]}',
+            f'nan_on_padding_batch={bool(case.get("nanpad"))}']
     has_empty = any(len(c['y']) == 0 for co in case['rounds'] for c in co)
     all_empty_round = any(co and all(len(c['y']) == 0 for c in co) for co in case['rounds'])
     tags.append(f'empty_client={has_empty}')
@@ -250,6 +280,11 @@ class C01(core.Property):
       mcohort = []
       for j, c in enumerate(cohort):
         batches = logs[ri][j]
+        want_steps = expected_steps(len(c['y']), case['bs'], case['epochs'], case['steps'], case['drop'])
+        if want_steps is not None and len(batches) != want_steps:
+          problems.append(f'round {ri} client {c["id"]} ({len(c["y"])} examples, batch_size={case["bs"]}, '
+                          f'num_epochs={case["epochs"]}, num_steps={case["steps"]}, drop_remainder={case["drop"]}) '
+                          f'ran {len(batches)} local steps, the documented number is {want_steps}')
         noise = self._noise(keys[ri][j], len(batches), d)
         p = w
         o = copt.init(p)
